@@ -5,10 +5,11 @@
                                   skips the deposit on both sides
      expected_deposit_count_ok    zrnt's expected count = min(MAX_DEPOSITS, deposit_count - eth1_deposit_index)
                                   PROVIDED eth1_deposit_index <= deposit_count
-     deposit_count_underflow_refuted   FINDING: for deposit_count < eth1_deposit_index zrnt's uint64 subtraction wraps,
-                                  the expected count becomes MAX_DEPOSITS and a block carrying MAX_DEPOSITS provable
-                                  deposits is ACCEPTED, while the spec rejects every block in such a state
-     process_deposits_fixed_rejects    with the proposed repair the count check refuses that state *)
+     process_deposits_count_rejects    the count check of the REPAIRED code (/repo 9bd2c6a) is the spec's rule: a wrong number of
+                                  deposits, or deposit_count < eth1_deposit_index, is an error
+     deposit_count_underflow_refuted   PINNED SNAPSHOT (`process_deposits_orig`): for deposit_count < eth1_deposit_index the
+                                  uint64 subtraction wrapped, the expected count became MAX_DEPOSITS and a block carrying
+                                  MAX_DEPOSITS provable deposits was ACCEPTED, while the spec rejects every block there *)
 From Coq Require Import String.
 From Coq Require Import NArith ZArith Lia List Bool.
 From Coq Require Import ZifyN ZifyNat ZifyBool.
@@ -88,15 +89,15 @@ Section Deposit.
     intros H. unfold expected_deposit_count_impl. fold c. rewrite sub64_ge by exact H.
     destruct (N.ltb_spec (MAX_DEPOSITS c) (e_deposit_count (eth1_data st) - eth1_deposit_index st)); lia.
   Qed.
-  (* with the repair, the count check is the spec's rule *)
-  Lemma process_deposits_fixed_count st epc_of deps :
+  (* the count check of the repaired code is the spec's rule *)
+  Lemma process_deposits_count_rejects st epc_of deps :
     (N.of_nat (length deps) <> N.min (MAX_DEPOSITS c) (e_deposit_count (eth1_data st) - eth1_deposit_index st)
      \/ e_deposit_count (eth1_data st) < eth1_deposit_index st) ->
-    process_deposits_fixed E f epc_of st deps = Err.
+    process_deposits_impl E f epc_of st deps = Err.
   Proof.
-    intros H. unfold process_deposits_fixed.
+    intros H. unfold process_deposits_impl.
     destruct (N.leb_spec (eth1_deposit_index st) (e_deposit_count (eth1_data st))) as [Hle|Hgt]; cbn [check bind]; [|reflexivity].
-    unfold process_deposits_impl. rewrite expected_deposit_count_ok by exact Hle.
+    unfold process_deposits_orig. rewrite expected_deposit_count_ok by exact Hle.
     destruct H as [H|H]; [|lia]. apply N.eqb_neq in H. rewrite H. reflexivity.
   Qed.
 End Deposit.
@@ -114,12 +115,12 @@ Definition dw_deposits : list value := repeat dw_deposit 16.
 Example deposit_count_underflow_refuted :
   (* the spec rejects every block body in this state ... *)
   (forall f body, process_operations blk_env f dw_state body = None)
-  (* ... zrnt's ProcessDeposits accepts these 16 deposits and credits them ... *)
+  (* ... the pinned snapshot's ProcessDeposits accepted these 16 deposits and credited them ... *)
   /\ option_map (fun s => (balances s, eth1_deposit_index s))
-       (match process_deposits_impl blk_env Altair (spec_epc blk_env) dw_state dw_deposits with Ok s => Some s | _ => None end)
+       (match process_deposits_orig blk_env Altair (spec_epc blk_env) dw_state dw_deposits with Ok s => Some s | _ => None end)
      = Some ([48 * GWEI_ETH], 21)
-  (* ... and the repaired check refuses them *)
-  /\ process_deposits_fixed blk_env Altair (spec_epc blk_env) dw_state dw_deposits = Err.
+  (* ... and the repaired code refuses them *)
+  /\ process_deposits_impl blk_env Altair (spec_epc blk_env) dw_state dw_deposits = Err.
 Proof.
   split; [|split].
   - intros f body. apply process_operations_deposit_count_rejects. right. vm_compute. reflexivity.
